@@ -284,7 +284,7 @@ def sh(cmd, **kw):
 
 
 def worker(idx, mutants, out_path, props_override):
-    base = f'/tmp/mut_w{idx}'
+    base = f'/tmp/' + os.environ.get('MUT_PREFIX', 'mut_w') + str(idx)
     shutil.rmtree(base, ignore_errors=True)
     os.makedirs(base)
     wt = os.path.join(base, 'repo')
@@ -370,8 +370,13 @@ def main():
             if m['id'] == a.id:
                 print(json.dumps(m, indent=1))
         return
+    if a.id:
+        # re-run selected mutants (after strengthening a check)
+        want = set(a.id.split(','))
+        muts = [m for m in muts if m['id'] in want]
+        a.workers = min(a.workers, max(1, len(muts)))
     done = set()
-    if os.path.exists(a.out):
+    if os.path.exists(a.out) and not a.id:
         done = {json.loads(l)['id'] for l in open(a.out)}
     muts = [m for m in muts if m['id'] not in done]
     if files:
